@@ -532,3 +532,65 @@ for _k, _spec in SENSES.items():
                           must_have=[r"SURF_calc_sense.postcondition"], checks=["--bounds-check", "--pointer-check", "--signed-overflow-check"],
                           assumptions=["exact small-integer abstraction of real_type (complete for these degree <= 2 polynomial identities; floating-point rounding of the surface function near zero not covered)"],
                           note=_spec[0][:-3] + "::calc_sense" + ("<%s>" % "xyz"[_ax] if _ax is not None else "") + ": the sense is the sign of the class's surface function at the position (real_to_sense of exactly that polynomial)"))
+
+
+# ---------------------------------------------------------------------------
+# QuadricPlaneConverter (host, header): a flat quadric becomes the plane with the SAME zero set
+# ---------------------------------------------------------------------------
+QPC = "src/orange/surf/detail/QuadricPlaneConverter.hh"
+QPC_MODEL = """
+typedef struct { real_type v[3]; } Real3;
+typedef struct { Real3 second_, first_; real_type zeroth_; } SimpleQuadric;
+typedef struct { Real3 normal_; real_type d_; } Plane;
+real_type __CPROVER_uninterpreted_norm3(real_type, real_type, real_type);
+real_type __CPROVER_uninterpreted_recip(real_type);
+real_type __CPROVER_uninterpreted_mulc(real_type, real_type);
+real_type __CPROVER_uninterpreted_unit3c(real_type, real_type, real_type, int);
+#define NORM3(a) __CPROVER_uninterpreted_norm3((a).v[0], (a).v[1], (a).v[2])                      /* celeritas::norm: value uninterpreted */
+#define RECIP(x) __CPROVER_uninterpreted_recip(x)                                                  /* 1 / x: value uninterpreted */
+static real_type MULC(real_type a, real_type b) { return a <= b ? __CPROVER_uninterpreted_mulc(a, b) : __CPROVER_uninterpreted_mulc(b, a); }   /* product: uninterpreted, commutative */
+static Real3 UNIT3(Real3 a) { Real3 r = {{__CPROVER_uninterpreted_unit3c(a.v[0], a.v[1], a.v[2], 0), __CPROVER_uninterpreted_unit3c(a.v[0], a.v[1], a.v[2], 1), __CPROVER_uninterpreted_unit3c(a.v[0], a.v[1], a.v[2], 2)}}; return r; }
+static void SCALE3(Real3* a, real_type s) { a->v[0] = MULC(a->v[0], s); a->v[1] = MULC(a->v[1], s); a->v[2] = MULC(a->v[2], s); }
+#define EQV(a, b) ((a) == (b) || (__CPROVER_isnand(a) && __CPROVER_isnand(b)))
+"""
+QPC_RULES = [
+    Rule(r"CELER_EXPECT\(\s*!?std::all_of\([^;]*;", "", "*", flags=16, note="tolerance preconditions on the coefficients (std::all_of over soft_zero_) dropped: stated in the contract"),
+    Rule(r"make_array\(sq\.first\(\)\)", "sq->first_", "*", note="Span -> Array copy of the linear coefficients"),
+    Rule(r"\bmake_unit_vector\(", "UNIT3(", "*", note="make_unit_vector -> uninterpreted components"),
+    Rule(r"auto n = ", "Real3 n = ", 1, note="auto -> Real3"),
+    Rule(r"1 / (?:celeritas::)?norm\((\w+)\)", r"RECIP(NORM3(\1))", "*", note="1 / norm(v) -> uninterpreted functions"),
+    Rule(r"\bn \*= (\w+);", r"SCALE3(&n, \1);", "*", note="Array *= scalar (ArrayOperators.hh): componentwise product"),
+    Rule(r"-sq\.zeroth\(\) \* (\w+)", r"MULC(-sq->zeroth_, \1)", "*", note="product -> uninterpreted commutative"),
+    Rule(r"-sq\.zeroth\(\) / (?:celeritas::)?norm\((\w+)\)", r"MULC(-sq->zeroth_, RECIP(NORM3(\1)))", "*", note="x / y treated as x * (1/y)"),
+    Rule(r"return Plane\{n, d\};", "{ Plane r_ = {n, d}; return r_; }", 1, note="brace-constructed return value"),
+]
+
+
+def build_quadric_plane(ctx):
+    pc = ctx.func(QPC, r"^Plane QuadricPlaneConverter::operator\(\)\(SimpleQuadric const& sq\) const", QPC_RULES, name="QuadricPlaneConverter::operator() (host)")
+    return (HDR + QPC_MODEL + """
+#define S_ (RECIP(NORM3(sq->first_)))       /* the ONE scale factor: 1 / |first| of the quadric's own linear coefficients */
+Plane QPC_call(SimpleQuadric const* sq)
+__CPROVER_requires(__CPROVER_r_ok(sq, sizeof(*sq)))
+__CPROVER_assigns()
+/* first . x + zeroth = 0 and n . x - d = 0 have the same zero set and orientation iff (n, -d) = s (first, zeroth) with ONE factor s > 0:
+   every normal component AND the displacement are scaled by the same 1 / |first| */
+__CPROVER_ensures((EQV(__CPROVER_return_value.normal_.v[0], MULC(sq->first_.v[0], S_)) && EQV(__CPROVER_return_value.normal_.v[1], MULC(sq->first_.v[1], S_)) && EQV(__CPROVER_return_value.normal_.v[2], MULC(sq->first_.v[2], S_)))
+               || (EQV(__CPROVER_return_value.normal_.v[0], UNIT3(sq->first_).v[0]) && EQV(__CPROVER_return_value.normal_.v[1], UNIT3(sq->first_).v[1]) && EQV(__CPROVER_return_value.normal_.v[2], UNIT3(sq->first_).v[2])))   /* (make_unit_vector(first) is the same vector by definition) */
+__CPROVER_ensures(EQV(__CPROVER_return_value.d_, MULC(-sq->zeroth_, S_)))
+{""" + pc.body + """}
+void h_qpc(void)
+{
+    SimpleQuadric q;
+    QPC_call(&q);
+    VERIF_CANARY();
+}
+""")
+
+
+UNITS += [
+    Unit("c12_quadric_plane", build_quadric_plane, "h_qpc", enforce="QPC_call", timeout=120, backend=["sat", "cvc5"], must_have=[r"QPC_call.postcondition"], checks=["--bounds-check", "--pointer-check"],
+         assumptions=["norm, reciprocal, products uninterpreted (product commutative): the unit decides that the normal and the displacement are scaled by the SAME factor 1/|first|, not its numeric accuracy",
+                      "tolerance preconditions (second-order terms soft-zero, first-order not) are the caller's (SurfaceSimplifier)"],
+         note="QuadricPlaneConverter::operator() (host): plane normal = first / |first| and displacement = -zeroth / |first| with one common factor, so the plane has the quadric's zero set and orientation"),
+]
